@@ -69,13 +69,24 @@ def forbidden_scan():
     return hits
 
 
+def property_modules(pid):
+    """Properties/<pid>.lean plus optional companion files Properties/<pid>_*.lean
+       (e.g. C03_Gen.lean: theorems tying translator-generated code to the model)"""
+    d = os.path.join(LEAN, 'Lomond', 'Properties')
+    mods = [pid] + sorted(os.path.basename(f)[:-5] for f in glob.glob(os.path.join(d, pid + '_*.lean')))
+    return mods
+
+
 def property_theorems(pid):
-    """names of the theorems stated in Properties/<pid>.lean (namespace-qualified)"""
-    path = os.path.join(LEAN, 'Lomond', 'Properties', pid + '.lean')
-    src = strip_comments(open(path).read())
-    ns = re.search(r'^namespace\s+(\S+)', src, re.M).group(1)
-    names = re.findall(r'^theorem\s+(\S+)', src, re.M)
-    return [ns + '.' + n for n in names]
+    """names of the theorems stated in Properties/<pid>.lean and its companions (namespace-qualified)"""
+    out = []
+    for mod in property_modules(pid):
+        path = os.path.join(LEAN, 'Lomond', 'Properties', mod + '.lean')
+        src = strip_comments(open(path).read())
+        ns = re.search(r'^namespace\s+(\S+)', src, re.M).group(1)
+        names = re.findall(r'^theorem\s+(\S+)', src, re.M)
+        out += [ns + '.' + n for n in names]
+    return out
 
 
 def axioms_audit(pid):
@@ -84,7 +95,8 @@ def axioms_audit(pid):
     os.makedirs(os.path.join(VERIF, '.scratch'), exist_ok=True)
     f = os.path.join(VERIF, '.scratch', 'axioms_%s.lean' % pid)
     with open(f, 'w') as fh:
-        fh.write('import Lomond.Properties.%s\n' % pid)
+        for mod in property_modules(pid):
+            fh.write('import Lomond.Properties.%s\n' % mod)
         for t in thms:
             fh.write('#print axioms %s\n' % t)
     r = sh(['lake', 'env', 'lean', f], cwd=LEAN, timeout=900)
@@ -236,7 +248,7 @@ def run_check(pid, tier, seed, replay=None):
     ok_model, log_model = lake_build(['lomond_model'])
     if not ok_model:
         problems.append('model driver does not build: ' + log_model[-800:])
-    ok_prop, log_prop = lake_build(['Lomond.Properties.' + pid])
+    ok_prop, log_prop = lake_build(['Lomond.Properties.' + m for m in property_modules(pid)])
     thm_axioms = {}
     if not ok_prop:
         errs = [l for l in log_prop.split('\n') if 'error' in l.lower()][:6]
@@ -248,7 +260,7 @@ def run_check(pid, tier, seed, replay=None):
     problems += ['forbidden construct: ' + h for h in fb]
     lc = None
     if tier == 'thorough' and ok_prop:
-        mods = ['Lomond.Properties.' + pid] + getattr(prop, 'LEANCHECK_MODULES', [])
+        mods = ['Lomond.Properties.' + m for m in property_modules(pid)] + getattr(prop, 'LEANCHECK_MODULES', [])
         okc, logc = leanchecker(mods)
         lc = okc
         if not okc:
